@@ -809,10 +809,15 @@ class ClientGenerator:
         ]
         variable_names = {}
         argument_names = set(arg.arg for arg in arguments.args)
+        # names the method body calls: a local must not shadow them either
+        called_names = {self._gql_func_name}
+        for scalar_data in self.custom_scalars.values():
+            if scalar_data.serialize_name:
+                called_names.add(scalar_data.serialize_name)
 
         for variable in mapped_variable_names:
             name = variable
-            while name in argument_names:
+            while name in argument_names or name in called_names:
                 name = f"_{name}"
             variable_names[variable] = name
 
